@@ -129,6 +129,9 @@ func LdRead(r *bufio.Reader) ([]byte, error) {
 
 	buf := make([]byte, l)
 	if _, err := io.ReadFull(r, buf); err != nil {
+		if err == io.EOF {
+			err = io.ErrUnexpectedEOF // the length prefix promised l bytes
+		}
 		return nil, err
 	}
 
